@@ -121,4 +121,20 @@ func init() {
 		Technique: "runtime monitoring: invariant audit at quiescent points via hooks + lifecycle monitors on stream callbacks",
 		DesignRef: "DESIGN.md §3 C11",
 	})
+	add(Spec{
+		PropSpec: vlib.PropSpec{
+			ID: "C12", Level: "exploration",
+			Rule: "stress phases (race build, GOMAXPROCS=8): 2..8 assembler goroutines + (3 of 4 rounds) a concurrent flusher (FlushOlderThan / FlushAll) on one StreamPool over 2..6 connections that are opened (SYN), fed in order and closed (FIN) for 20..120 (thorough ..300) generations each; every direction is fed by exactly one assembler; lock-free yield points (verif hooks) inject Gosched/1-100us sleeps; payloads are self-describing 8-byte records (conn, dir, generation, index) so each stream checks on its own, without shared monitor state, that it only gets its own connection's bytes, in order, gap-free unless a skip is announced, never concurrently (atomic in-callback flag), completed exactly once; offline after join: no record delivered twice, lifetimes of the kept streams of one key do not overlap (single live entry), pool empty after the final FlushAll; Go race detector reports are parsed and keyed by the innermost gopacket function pair. Non-trivial = every stress round (>= 2 goroutines on a shared pool); distinct by (round, batch).",
+			Assumptions: []string{"the race detector only reports races between accesses that both executed in the run", "stream monitors use only per-stream state (plus an atomic in-callback flag), so they add no happens-before edges between different connections"},
+			Phases: []vlib.Phase{
+				{Name: "stress-tcpassembly", Bin: "vtcpasm", Race: true, Quick: 2, Thorough: 4, Procs: 8, Parallel: 2},
+				{Name: "stress-reassembly", Bin: "vreasm", Race: true, Quick: 2, Thorough: 4, Procs: 8, Parallel: 2},
+			},
+			Require: []string{"stress_rounds_tcpassembly", "stress_rounds_reassembly", "stress_rounds_with_flusher"},
+		},
+		LevelText: "Runtime monitoring under stress: the real assemblers run concurrently against one pool under the Go race detector with delay injection at lock-free yield points; per-stream monitors and offline history checks decide ordering, single-entry and exactly-once completion. Exploration: only the interleavings that occurred are covered.",
+		LevelNote: trusted,
+		Technique: "runtime monitoring: Go race detector + per-stream trace monitors under randomized stress with injected delays; (systematic schedule enumeration + porcupine in the sched phases)",
+		DesignRef: "DESIGN.md §3 C12",
+	})
 }
